@@ -211,8 +211,19 @@ def run(ctx):
   g3 = prog.cfg(im)
   acq = [n for n in g3.live_nodes() if any(prog.resolve_call(im, c) == 'config.enter_interactive_mode' for c in calls_of_node(n))]
   rel = [n for n in g3.live_nodes() if any(prog.resolve_call(im, c) == 'config.exit_interactive_mode' for c in calls_of_node(n))]
-  leaks = pair_leaks(g3, [n.id for n in acq], [n.id for n in rel]) if acq else [(None, 'entry', [])]
-  ctx.check(not leaks and acq, 'C13.interactive', construct(im), 'interactive mode is switched off on every exit of the block',
+  # the block may also write the flag itself (saving and restoring the previous mode)
+  def flag_store(n, on):
+    a_ = n.ast if n.kind == 'stmt' else None
+    if not (isinstance(a_, ast.Assign) and len(a_.targets) == 1 and u(a_.targets[0]) == '_INTERACTIVE_MODE'):
+      return False
+    is_true = isinstance(a_.value, ast.Constant) and a_.value.value is True
+    return is_true if on else not is_true
+  acq += [n for n in g3.live_nodes() if flag_store(n, True)]
+  rel += [n for n in g3.live_nodes() if flag_store(n, False)]
+  if not acq:
+    raise AnalysisError('interactive_mode: no statement that switches interactive mode on was recognised')
+  leaks = pair_leaks(g3, [n.id for n in acq], [n.id for n in rel])
+  ctx.check(not leaks, 'C13.interactive', construct(im), 'interactive mode is switched off on every exit of the block',
             'interactive mode stays on when the block exits by %s' % (leaks[0][1] if leaks else ''), im.loc(), sites=len(g3.live_nodes()),
             path=describe_path(g3, leaks[0][2]) if leaks and leaks[0][2] else None)
   for q, val in (('config.enter_interactive_mode', True), ('config.exit_interactive_mode', False)):
